@@ -50,18 +50,12 @@ structure MSt where
   now : Nat := 0
   tracks : List (Nat × TTrack) := []
 
-def subjectOf : TOp → Option Nat
-  | .register s _ => some s
-  | .unregister s => some s
-  | .report s _ => some s
-  | .adv _ => none
-
 def fail (sig what : String) : Fail := { prop := "C30", sig := sig, what := what }
 
 def hMon (m : MSt) (op : List String) (_ : List (List String)) (obs : Option String) : MSt × List Fail :=
   match parseOp op, obs with
   | some o, some ob =>
-    let tr0 := match subjectOf o with
+    let tr0 := match subject o with
       | some s => if m.tracks.any (·.1 == s) then m.tracks else m.tracks ++ [(s, ({ now := m.now } : TTrack))]
       | none => m.tracks
     let m' : MSt := { now := m.now + dur o, tracks := tr0.map fun (s, h) => (s, TTrack.step s h o) }
